@@ -1,6 +1,7 @@
 package checks
 
 import (
+	"context"
 	"fmt"
 	"os"
 	"runtime"
@@ -471,6 +472,25 @@ func C09(tier string) int {
 				rep.Violation(sig+"|changed-database", fmt.Sprintf("integrity check (fix=%v) changed a healthy database:\n%s\nhistory: %v", fix, dump.Diff(c09Norm(before), c09Norm(after)), st.History), map[string]interface{}{"history": st.History})
 			}
 		}
+	}
+	// the same on every reachable UNCOMMITTED state: the checker runs inside the transaction that just
+	// executed the operation (entries written earlier in the same transaction must be seen like committed ones)
+	cfg.PerTransition = func(tx *bbolt.Tx, pre *explore.State, program []int, post *dump.Tree, m explore.Model) error {
+		ctx := boltz.NewTxMutateContext(context.Background(), tx)
+		for _, fix := range []bool{false, true} {
+			reports, err := k.checkAll(ctx, fix)
+			rep.Count("healthy_uncommitted_states_checked", 1)
+			if err != nil {
+				return fmt.Errorf("integrity check (fix=%v) inside the transaction that executed the operation failed: %v", fix, err)
+			}
+			if len(reports) > 0 {
+				return fmt.Errorf("integrity check (fix=%v) run inside the transaction that executed the operation reports a healthy state as inconsistent: %q", fix, reports[0].msg)
+			}
+			if after := dump.Tx(tx); !c09Norm(post).Equal(c09Norm(after)) {
+				return fmt.Errorf("integrity check (fix=%v) run inside the transaction changed a healthy database:\n%s", fix, dump.Diff(c09Norm(post), c09Norm(after)))
+			}
+		}
+		return nil
 	}
 	runE1(rep, k, cfg)
 
